@@ -2,7 +2,7 @@
 From Coq Require Import ZArith Reals List Bool Arith Permutation Relations.
 From EG Require Import Num.Num Num.RNum Lib.Vec Model.MeshTopo Model.MeshGeom.
 From EG Require Import Proofs.MeshEdges Proofs.MeshLoops Proofs.MeshLoopsClosed Proofs.MeshPatches
-                       Proofs.MeshPatchesConn Proofs.MeshClusters Proofs.MeshChains Proofs.MeshGeom.
+                       Proofs.MeshPatchesConn Proofs.MeshClusters Proofs.MeshClustersConn Proofs.MeshChains Proofs.MeshGeom.
 Import ListNotations.
 
 (* ---- edge table ---- *)
@@ -71,6 +71,18 @@ Theorem C12_clusters_partition : forall (vpick : list voxel -> option voxel),
                    Permutation (concat clusters) voxels /\ (forall c, In c clusters -> c <> []).
 Proof. exact clusters_partition. Qed.
 Print Assumptions C12_clusters_partition.
+
+(* maximal connectivity of voxel clusters, for every hash-iteration order: every voxel of a cluster is joined to the
+   cluster's seed by a chain of 26-neighbours inside the cluster, and no voxel of one cluster is a 26-neighbour of a
+   voxel of another cluster (so the clusters are exactly the 26-connected components) *)
+Theorem C12_clusters_connectivity : forall (vpick : list voxel -> option voxel),
+  (forall l x, vpick l = Some x -> In x l) ->
+  forall (voxels : list voxel) clusters, NoDup voxels -> clusters_from_sparse vpick voxels = Some clusters ->
+  (forall c, In c clusters -> exists seed, In seed c /\ forall x, In x c -> path c seed x) /\
+  (forall i j c1 c2, i <> j -> nth_error clusters i = Some c1 -> nth_error clusters j = Some c2 ->
+     forall a b, In a c1 -> In b c2 -> ~ adj26 a b).
+Proof. exact clusters_connectivity. Qed.
+Print Assumptions C12_clusters_connectivity.
 
 Theorem C12_chains_exactly_once : forall indices : list edge,
   exists chains used, chained_indices_full indices = Some (chains, used) /\
